@@ -50,4 +50,5 @@ S52 C18 quick symscan
 S53 C16 quick normalize_3loops$
 S54 C20 quick small$
 S55 C13 quick err_9$
+S56 C12 quick getIcosahedronFaces_glue$
 T
